@@ -271,7 +271,10 @@ def roundtrip_reaction(ctx, pool, fmt, rng):
             nxt += len(m)
             m.name = ''
             m._meta = None
-            m.clean_stereo()
+            if rng.random() < .4 or fmt == 'mrv' and False:
+                m.clean_stereo()
+            elif any(a.stereo is not None for _, a in m.atoms()):
+                ctx.count('roundtrip.reaction-molecules-with-stereo')
             mols.append(m)
         roles.append(mols)
     if not any(roles):
@@ -313,6 +316,15 @@ def roundtrip_reaction(ctx, pool, fmt, rng):
 
 
 def boundary_molecules(rng):
+    # a +-4 atom (written as M  CHG) together with atoms whose charge sits in the atom block, in one record
+    for text in ('[Zr+4].[Cl-].[Cl-].[Cl-].[Cl-]', '[Th+4].[O-2].[O-2]', '[C-4].[Li+].[Li+].[Li+].[Li+]', '[Ti+4].CC[O-].CC[O-].[Cl-].[Cl-]',
+                 '[Fe+2].[Fe+3].[U+4].[N-3]', 'C[N+](C)(C)C.[Ce+4].[F-].[F-].[F-].[F-].[F-]', '[Sn+4].[S-2].[S-2]'):
+        try:
+            m = smiles(text)
+            with_coords(m, text)
+            yield 'multi-ion:' + text, m
+        except Exception:
+            pass
     for ch in range(-4, 5):
         m = MoleculeContainer()
         a = m.add_atom(rng.choice(('Fe', 'N', 'S', 'U', 'C')), rng.randrange(1, 900), _skip_calculation=True)
